@@ -697,7 +697,14 @@ std::size_t dataframe::read_csv(std::istream &from, params p)
   {
     if (p.output_index)
     {
-      assert(p.output_index < record.size());
+      // A record without the output column is malformed and is skipped (it
+      // cannot be rotated).
+      if (*p.output_index >= record.size())
+      {
+        vitaWARNING << "Malformed record (missing output column) skipped";
+        continue;
+      }
+
       //std::swap(record[0], record[*p.output_index]);
       if (p.output_index > 0)
         std::rotate(record.begin(),
